@@ -54,7 +54,7 @@ Definition entries : list (str * (bool * bool * bool * bool * bool * bool * bool
    ([114;101;97;100;83;111;117;114;99;101;70;83]%N (* readSourceFS *), (false, false, false, false, false, false, false), []);
    ([114;101;113;80;107;103]%N (* reqPkg *), (false, false, false, false, false, false, false), [])].
 
-(* construction sites of ast.Bad* nodes; class 0 = no error witness, 1 = dominated by p.error/p.errorExpected, 2 = nil-guard of an error-reporting helper, 3 = ok-flag with error after the loop, 4 = non-empty sub-parser error list appended, 5 = cond==nil in a reviewed header (pinned body): (function, kind, class) *)
+(* construction sites of ast.Bad* nodes; class 0 = no error witness, 1 = dominated by p.error/p.errorExpected, 2 = nil-guard of an error-reporting helper, 3 = ok-flag with error after the loop, 4 = non-empty sub-parser error list appended, 5 = cond==nil in a reviewed header (pinned body), 6 = isTuple flag of parseRHSOrTypeEx(false) (parseLambdaExpr reports every tuple it returns when allowTuple is false): (function, kind, class) *)
 Definition bad_sites : list (str * str * Z) :=
   [([112;97;114;115;101;114;46;99;104;101;99;107;69;120;112;114]%N (* parser.checkExpr *), [66;97;100;69;120;112;114]%N (* BadExpr: error call dominates *), 1%Z);
    ([112;97;114;115;101;114;46;99;104;101;99;107;69;120;112;114]%N (* parser.checkExpr *), [66;97;100;69;120;112;114]%N (* BadExpr: error call dominates *), 1%Z);
@@ -77,7 +77,7 @@ Definition bad_sites : list (str * str * Z) :=
    ([112;97;114;115;101;114;46;112;97;114;115;101;76;97;109;98;100;97;69;120;112;114]%N (* parser.parseLambdaExpr *), [66;97;100;69;120;112;114]%N (* BadExpr: guarded by ident == nil of p.toIdent *), 2%Z);
    ([112;97;114;115;101;114;46;112;97;114;115;101;79;112;101;114;97;110;100]%N (* parser.parseOperand *), [66;97;100;69;120;112;114]%N (* BadExpr: error call dominates *), 1%Z);
    ([112;97;114;115;101;114;46;112;97;114;115;101;80;97;114;97;109;101;116;101;114;76;105;115;116]%N (* parser.parseParameterList *), [66;97;100;69;120;112;114]%N (* BadExpr: ok = false; if !ok { p.error } after the loop *), 3%Z);
-   ([112;97;114;115;101;114;46;112;97;114;115;101;82;72;83;79;114;84;121;112;101]%N (* parser.parseRHSOrType *), [66;97;100;69;120;112;114]%N (* BadExpr: NO ERROR WITNESS *), 0%Z);
+   ([112;97;114;115;101;114;46;112;97;114;115;101;82;72;83;79;114;84;121;112;101]%N (* parser.parseRHSOrType *), [66;97;100;69;120;112;114]%N (* BadExpr: guarded by isTuple of p.parseRHSOrTypeEx(false); parseLambdaExpr reports the tuple *), 6%Z);
    ([112;97;114;115;101;114;46;112;97;114;115;101;83;105;109;112;108;101;83;116;109;116;69;120]%N (* parser.parseSimpleStmtEx *), [66;97;100;83;116;109;116]%N (* BadStmt: error call dominates *), 1%Z);
    ([112;97;114;115;101;114;46;112;97;114;115;101;83;116;109;116]%N (* parser.parseStmt *), [66;97;100;83;116;109;116]%N (* BadStmt: error call dominates *), 1%Z);
    ([112;97;114;115;101;114;46;112;97;114;115;101;84;121;112;101]%N (* parser.parseType *), [66;97;100;69;120;112;114]%N (* BadExpr: error call dominates *), 1%Z);
